@@ -4,9 +4,9 @@
    The theorems are about the REPAIRED code (variant [New]: ECDSA keygen remembers whether it took
    the lock; Execute stops the processes of a refused request); the code as found (variant [Old])
    is refuted by C10_old_*_refuted. *)
-From Coq Require Import List Arith Bool.
+From Coq Require Import List Arith NArith Bool.
 Import ListNotations.
-From SygmaV Require Import Model.C10 Proofs.C10 Proofs.C10_Conc.
+From SygmaV Require Import Model.C10 Proofs.C10 Proofs.C10_Conc Proofs.C10_Stress.
 
 (* no_fatal_unlock + free_at_end (+ never blocks on itself): every process kind x every outcome *)
 Theorem C10_no_fatal_unlock_free_at_end : forall k o, feasible k o = true ->
@@ -170,6 +170,59 @@ Theorem C10_merged_ok_sound : forall tr, merged_ok tr = true ->
 Proof. exact merged_ok_sound. Qed.
 Print Assumptions C10_merged_ok_sound.
 
+(* The state in which Execute is ENTERED: a context that is already cancelled / past its deadline
+   when Coordinator.Execute is called (outcome CancelledBeforeEntry; covered, like every outcome, by
+   the theorems above: C10_no_fatal_unlock_free_at_end, C10_balanced, C10_guarded, the sequence and
+   contention theorems).  For every kind it exists, its ledger is the one of a session cancelled
+   before start - what the constructor did, no Run, the deferred Stop - and the judge accepts it. *)
+Theorem C10_cancelled_before_entry : forall k,
+  feasible k CancelledBeforeEntry = true /\
+  session_events New k CancelledBeforeEntry = session_events New k NeverCancelled /\
+  session_events New k CancelledBeforeEntry = ctor_events k ++ stop_events New k false /\
+  session_ok k (session_events New k CancelledBeforeEntry) = true.
+Proof. exact cancelled_before_entry. Qed.
+Print Assumptions C10_cancelled_before_entry.
+
+(* The stores' own LockKeyshare / UnlockKeyshare must BE the mutex of C10_serialised (one held bit).
+   Stress program: [workers] threads, each [pairs] times  Lock; read the shared counter; write it
+   back incremented; Unlock.  Under ANY schedule of that mutex that lets every worker finish: no
+   fatal unlock, the merged ledger passes the judge of merged ledgers, the mutex is free at the
+   end, every worker's part of the ledger is its program, and NO INCREMENT IS LOST: the counter is
+   workers * pairs. *)
+Theorem C10_store_stress : forall (workers pairs : nat) (sched : list nat),
+  let st0 := cinit (stress_prog workers pairs) in
+  (forall t, rest (cexec sched st0) t = []) ->
+  fatal (cexec sched st0) = false /\
+  merged_ok (ctrace sched st0) = true /\
+  owner_after None (ctrace sched st0) = None /\
+  (forall t, proj t (ctrace sched st0) = stress_prog workers pairs t) /\
+  counter_run 0 (fun _ => 0) (ctrace sched st0) = workers * pairs.
+Proof. exact stress_model. Qed.
+Print Assumptions C10_store_stress.
+
+(* ... more generally: ANY merged ledger the judge of merged ledgers accepts (tguard) whose threads
+   are read-modify-write programs keeps every increment *)
+Theorem C10_guarded_counter_exact : forall tr reg, tguard None tr = true ->
+  (forall u, rmwb false false (proj u tr) = true) ->
+  counter_run 0 reg tr = count is_Store (map snd tr).
+Proof. exact guarded_counter_exact. Qed.
+Print Assumptions C10_guarded_counter_exact.
+
+(* the judge of an observed stress run accepts what the model shows and means: every worker
+   completed all its pairs, the counter is exact, a final Lock succeeded *)
+Theorem C10_stress_ok_model : forall workers pairs : nat,
+  stress_ok (N.of_nat workers) (N.of_nat pairs) (repeat (N.of_nat pairs) workers)
+            (N.of_nat (workers * pairs)) 1 = true.
+Proof. exact stress_ok_model. Qed.
+Print Assumptions C10_stress_ok_model.
+
+Theorem C10_stress_ok_sound : forall workers pairs dones counter free,
+  stress_ok workers pairs dones counter free = true ->
+  N.of_nat (length dones) = workers /\ (forall d, In d dones -> d = pairs) /\
+  counter = (workers * pairs)%N /\ free = 1.
+Proof. exact stress_ok_sound. Qed.
+Print Assumptions C10_stress_ok_sound.
+
 (* The code as found: an ECDSA keygen whose coordinator stays silent unlocks an unlocked mutex
    (fatal), and a refused constructor-locking process leaks the lock so that the next session on
    that store blocks. *)
@@ -217,4 +270,20 @@ Example C10_contention_nonvacuous :
   contention_ok ss (ctrace sched st0) = true /\
   contention_ok ss [(0, L); (0, Get); (1, Get); (0, U); (1, RunBegin); (1, RunEnd); (2, L); (2, U)] = false /\
   merged_ok [(0, L); (0, U); (1, RunBegin); (1, RunEnd); (1, L)] = false.
+Proof. vm_compute. repeat split. Qed.
+
+(* Non-vacuity of the stress theorems: two workers x two pairs under a schedule that lets both
+   finish (worker 1 asks for the lock while worker 0 holds it and stays blocked); and a ledger in
+   which two workers are inside their sections at once loses an increment and is rejected. *)
+Example C10_stress_nonvacuous :
+  let st0 := cinit (stress_prog 2 2) in
+  let sched := [0; 1; 0; 1; 0; 0; 1; 1; 1; 0; 1; 0; 0; 0; 0; 1; 1; 1; 1; 1] in
+  rest (cexec sched st0) 0 = [] /\ rest (cexec sched st0) 1 = [] /\
+  counter_run 0 (fun _ => 0) (ctrace sched st0) = 4 /\
+  merged_ok (ctrace sched st0) = true /\
+  counter_run 0 (fun _ => 0) [(0, L); (0, Get); (1, L); (1, Get); (0, Store); (0, U); (1, Store); (1, U)] = 1 /\
+  tguard None [(0, L); (0, Get); (1, L); (1, Get); (0, Store); (0, U); (1, Store); (1, U)] = false /\
+  stress_ok 2 2 [2; 2]%N 4 1 = true /\ stress_ok 2 2 [2; 2]%N 3 1 = false /\ stress_ok 2 2 [2; 1]%N 3 3 = false /\
+  session_events New FrostKeygen CancelledBeforeEntry = [L; U] /\
+  session_events New EcdsaKeygen CancelledBeforeEntry = [].
 Proof. vm_compute. repeat split. Qed.
